@@ -302,6 +302,14 @@ func CheckUserInput(conf Root) error {
 			}
 		}
 	)
+	var checkInputs func(inputs []dig.Input)
+	checkInputs = func(inputs []dig.Input) {
+		for _, inp := range inputs {
+			check("referenced table name", inp.Filter.Ref.Table)
+			check("referenced column name", inp.Filter.Ref.Column)
+			checkInputs(inp.Components)
+		}
+	}
 	for _, ig := range conf.Integrations {
 		check("integration name", ig.Name)
 		check("table name", ig.Table.Name)
@@ -309,13 +317,22 @@ func CheckUserInput(conf Root) error {
 			check("column name", c.Name)
 			check("column type", c.Type)
 		}
+		for _, cols := range ig.Table.Unique {
+			for _, name := range cols {
+				check("unique column name", name)
+			}
+		}
+		for _, cols := range ig.Table.Index {
+			for _, name := range cols {
+				check("index column name", name)
+			}
+		}
 		for _, name := range ig.Notification.Columns {
 			check("notification column name", name)
 		}
-		for _, inp := range ig.Event.Inputs {
-			check("referenced column name", inp.Filter.Ref.Column)
-		}
+		checkInputs(ig.Event.Inputs)
 		for _, bd := range ig.Block {
+			check("referenced table name", bd.Filter.Ref.Table)
 			check("referenced column name", bd.Filter.Ref.Column)
 		}
 	}
